@@ -830,3 +830,12 @@ Example ex_history :
                  (mkparams 1500000000000000000 2 0 5, 10 ^ 20, CosmosTx 300000 [(0%N, 600000)] None 5)]
   = 50000 * 3 + 2 * 300000.
 Proof. vm_compute. reflexivity. Qed.
+
+(** the fee compared with the floor and charged up front, per transaction type *)
+Lemma eff_fee_by_type base m :
+  eff_fee base m =
+  match m_ty m with
+  | Legacy | AccessL => m_price m * m_gas m
+  | Dynamic => Z.min (m_tip m + base) (m_price m) * m_gas m
+  end.
+Proof. unfold eff_fee, eff_price. destruct (m_ty m); reflexivity. Qed.
